@@ -37,6 +37,21 @@ fn inst(
     }
 }
 
+/// Names must not depend on the build configuration (the master of one build drives workers of
+/// the other): guard counts are spelled symbolically.
+fn gname(g: usize) -> String {
+    let s = crate::api::SLOTS;
+    if g == s {
+        "S".to_string()
+    } else if g == s + 1 {
+        "S1".to_string()
+    } else if g == s + 2 {
+        "S2".to_string()
+    } else {
+        g.to_string()
+    }
+}
+
 fn mode_name(m: AllocMode) -> &'static str {
     match m {
         Fresh => "fresh",
@@ -78,7 +93,7 @@ fn more_family<S: Strat + arc_swap::strategy::Strategy<crate::api::V2> + arc_swa
         if !fill {
             for g in [1usize, slots, slots + 1] {
                 out.push(inst(
-                    format!("held{}:{}:{}", g, path, m),
+                    format!("held{}:{}:{}", gname(g), path, m),
                     &["C01", "C02", "C03", "C07", "C08", "C09", "C10", "C13"],
                     mode,
                     2,
@@ -87,7 +102,7 @@ fn more_family<S: Strat + arc_swap::strategy::Strategy<crate::api::V2> + arc_swa
                 ));
             }
             out.push(inst(
-                format!("held{}x2:{}:{}", slots, path, m),
+                format!("heldSx2:{}:{}", path, m),
                 &["C01", "C02", "C03", "C07", "C10"],
                 mode,
                 3,
@@ -97,7 +112,7 @@ fn more_family<S: Strat + arc_swap::strategy::Strategy<crate::api::V2> + arc_swa
             for g in [1usize, slots + 1] {
                 for into in [false, true] {
                     out.push(inst(
-                        format!("consume{}{}:{}:{}", g, if into { "i" } else { "d" }, path, m),
+                        format!("consume{}{}:{}:{}", gname(g), if into { "i" } else { "d" }, path, m),
                         &["C01", "C02", "C04", "C07", "C09", "C10", "C13"],
                         mode,
                         1,
@@ -306,7 +321,7 @@ fn more_family<S: Strat + arc_swap::strategy::Strategy<crate::api::V2> + arc_swa
         for g in [1usize, slots + 1] {
             for ww in [false, true] {
                 out.push(inst(
-                    format!("guard_life{}{}:{}", g, if ww { "w" } else { "" }, path),
+                    format!("guard_life{}{}:{}", gname(g), if ww { "w" } else { "" }, path),
                     &["C01", "C02", "C07", "C10", "C11", "C13"],
                     Fresh,
                     if ww { 4 } else { 3 },
@@ -367,7 +382,7 @@ fn adversary_family<S: Strat>(out: &mut Vec<Inst>, fill: bool) {
     for g in gs {
         for k in 1..=4usize {
             let mut i = inst(
-                format!("adv{}:{}:g{}", k, path, g),
+                format!("adv{}:{}:g{}", k, path, gname(g)),
                 &["C08"],
                 Fresh,
                 2,
